@@ -578,11 +578,19 @@ def _change_literals(node, binds=None, prog=None):
     out = []
     scopes = [node]
     if prog is not None:
+        seen_fns = set()
         for call in find_nodes(node, lambda n: n["k"] in ("mcall", "call")):
             g, args = _call_target(prog, call)
             if g is not None and g.hir and g.hir.get("body") and not g.public and g.kind != "Closure":
                 consts = _call_consts(g, args)
+                seen_fns.add(g.path)
                 scopes.append(_specialise(g.hir["body"], {}, {}, consts) if consts else g.hir["body"])
+        # private functions handed to a combinator as values: `self.advance_old().map(deletion)`
+        for ref in find_nodes(node, lambda n: n["k"] == "path" and (n.get("res") or {}).get("dk") in ("Fn", "AssocFn")):
+            g = prog.fn(ref["res"].get("path", ""))
+            if g is not None and g.hir and g.hir.get("body") and not g.public and g.kind != "Closure" and g.path not in seen_fns:
+                seen_fns.add(g.path)
+                scopes.append(g.hir["body"])
     for scope in scopes:
         lets = _scope_lets(scope)
         seen_ids = set()
@@ -667,7 +675,9 @@ def rule_F4(prog):
                 # value side: the `value` binding of the enclosing block
                 side = _value_side(lit["node"], lit.get("scope") or arms[v]["body"])
                 got.append((lit["tag"], lit["old_some"], lit["new_some"], side))
-            ok = got == want
+            # a value whose origin is not visible next to the literal (it arrives through a helper's return value or
+            # parameter) is left to engine A, which types items by the sequence they were read from (A4 change-value-side)
+            ok = len(got) == len(want) and all(g_[:3] == w_[:3] and g_[3] in (w_[3], "?") for g_, w_ in zip(got, want))
             # the branch that yields an old-side change may depend on the old cursor only (and new on new): this is
             # what makes a Replace yield all its deletes before its first insert
             gbad = []
@@ -816,7 +826,22 @@ def rule_F3(prog):
             for v, want in SLICES.items():
                 a = arms[v]
                 binds = pat_bindings(a["pat"])
-                tups = find_nodes(a["body"], lambda n: n["k"] == "tup" and len(n["es"]) == 2 and tag_of(n["es"][0]) is not None)
+                is_pair = lambda n: n["k"] == "tup" and len(n["es"]) == 2 and tag_of(n["es"][0]) is not None
+                tups = []
+                for node in find_nodes(a["body"], lambda n: is_pair(n) or n["k"] in ("call", "mcall")):
+                    if is_pair(node):
+                        tups.append(node)
+                        continue
+                    # a private helper that builds the (tag, slice) pair from its arguments: `self.old.tagged(tag, i, n)`
+                    g, args = _call_target(prog, node)
+                    if g is None or not g.hir or not g.hir.get("body") or g.public or g.kind == "Closure":
+                        continue
+                    sub = {}
+                    for pp, arg in zip(g.hir["params"], args):
+                        if pp["pat"].get("k") == "bind":
+                            sub[pp["pat"]["id"]] = arg
+                    inlined = _specialise(g.hir["body"], {}, {}, sub)
+                    tups += find_nodes(inlined, is_pair)
                 got = []
                 for t in tups:
                     tg = tag_of(t["es"][0])
@@ -1134,6 +1159,9 @@ def _token_profile(fn):
                 chars.add(c)
         elif k == "mcall" and n["name"] in CLASSIFIERS:
             classes.add(n["name"])
+        elif k == "path" and (n.get("res") or {}).get("k") == "def" and \
+                (n["res"].get("path", "").rsplit("::", 1)[-1] in CLASSIFIERS) and "char" in n["res"].get("path", ""):
+            classes.add(n["res"]["path"].rsplit("::", 1)[-1])      # `char::is_whitespace` handed to a helper as a function
         if k == "mcall" and n["name"] in ("map_or", "is_some_and", "is_none_or") and n["args"]:
             d0 = unwrap(n["args"][0])
             if isinstance(d0, dict) and d0.get("k") == "lit" and d0.get("src") in ("true", "false"):
@@ -1425,10 +1453,31 @@ def rule_F9(prog):
         ms = [x for x in op_matches(fn) if set(x[1]) >= {"Equal", "Delete", "Insert", "Replace"}]
         r.instances += 1
         if not ms:
-            r.ob(False, "iter_inline_changes: no match over the second-level ops")
-            r.find(fn.path, "no-match", "iter_inline_changes has no exhaustive match over the second-level DiffOp", file=fn.file, line=fn.line)
-            continue
-        mn, arms = ms[0]
+            # no per-tag match: the flag may be computed from the tag directly (`emphasized = tag != DiffTag::Equal`)
+            lets_f = _lets(fn)
+            flags = []
+            for body in [fn.hir["body"]]:
+                for c in find_nodes(body, lambda n: n["k"] == "call" and len(n["args"]) >= 3):
+                    g, args = _call_target(prog, c)
+                    if g is None or not g.hir:
+                        continue
+                    pn = [pp["pat"].get("name") for pp in g.hir["params"]]
+                    if origin(c["f"]).endswith("push_values") and len(args) > 2:
+                        flags.append(origin_deep(args[2], lets_f))
+                    elif "emphasized" in pn and find_nodes(g.hir["body"], lambda n: n["k"] == "call" and origin(n["f"]).endswith("push_values")):
+                        inner = find_nodes(g.hir["body"], lambda n: n["k"] == "call" and origin(n["f"]).endswith("push_values"))
+                        if all(len(i_["args"]) > 2 and origin(i_["args"][2]) == "emphasized" for i_ in inner):
+                            flags.append(origin_deep(args[pn.index("emphasized")], lets_f))
+            good = bool(flags) and all(re.match(r"^\((.*)!=DiffTag::Equal\)$", f_) or re.match(r"^Not\(\((.*)==DiffTag::Equal\)\)$", f_)
+                                       for f_ in flags)
+            r.instances += 4
+            r.ob(good, "iter_inline_changes: emphasis flags %s" % flags)
+            if not good:
+                r.find(fn.path, "no-match", "iter_inline_changes has neither an exhaustive match over the second-level DiffOp nor "
+                       "an emphasis flag of the form `tag != DiffTag::Equal` (found %s)" % flags, file=fn.file, line=fn.line)
+            mn, arms = None, {}
+        else:
+            mn, arms = ms[0]
         for v, a in arms.items():
             calls = find_nodes(a["body"], lambda n: n["k"] == "call" and origin(n["f"]).endswith("push_values"))
             flags = [origin(c["args"][2]) for c in calls if len(c["args"]) > 2]
@@ -1663,8 +1712,11 @@ def rule_F11(prog):
 
 
 def _twin_norm(fn):
-    """Body of a run tokenizer with the character-class test abstracted to CLASS(x) and locals alpha-renamed."""
+    """Body of a run tokenizer with the character-class test abstracted to CLASS(x), locals alpha-renamed and
+    single-assignment lets replaced by their initialisers."""
     names = {}
+    tlets = {}
+    depth = [0]
 
     def nm(x):
         if x not in names:
@@ -1697,10 +1749,23 @@ def _twin_norm(fn):
             if k == "path":
                 rr = n.get("res", {})
                 if rr.get("k") == "local":
+                    if rr["id"] in tlets and depth[0] < 30:
+                        depth[0] += 1
+                        try:
+                            return go(tlets[rr["id"]])      # a named intermediate value in one twin only does not matter
+                        finally:
+                            depth[0] -= 1
                     return nm(rr["id"])
                 return rr.get("path", "?").rsplit("::", 1)[-1]
             if k == "bind":
                 return "B:" + nm(n["id"])
+            if k == "let" and isinstance(n.get("pat"), dict) and n["pat"].get("id") in tlets:
+                return ""
+            if k == "block" and n["b"].get("expr") and all(
+                    st.get("k") == "let" and isinstance(st.get("pat"), dict) and st["pat"].get("id") in tlets for st in n["b"]["stmts"]):
+                return go(n["b"]["expr"])       # a block that only named intermediate values
+            if k == "droptemps":
+                return go(n["x"])
             parts = []
             for kk in sorted(n):
                 if kk in ("id", "line", "ty", "src", "adj_ty", "recv_ty", "gargs", "tyj", "exp", "base_ty", "local", "impl_self",
@@ -1713,11 +1778,12 @@ def _twin_norm(fn):
                     parts.append("%s=%s" % (kk, v))
             return "{" + " ".join(parts) + "}"
         if isinstance(n, list):
-            return "[" + ",".join(go(x) for x in n) + "]"
+            return "[" + ",".join(x for x in (go(x) for x in n) if x != "") + "]"
         return str(n)
     loops = find_nodes(fn.hir["body"], lambda n: n["k"] == "loop", stop=lambda n: n["k"] == "loop")
     if len(loops) != 1:
         return "LOOPS=%d" % len(loops)
+    tlets.update(_single_assignment_lets(loops[0]))
     return go(loops[0])
 
 
@@ -2015,8 +2081,15 @@ def rule_F14(prog):
 
 
 def rule_F15(prog):
-    r = RuleResult("F15", "unique(): `seen twice` is absorbing -- Some(index) is stored only through a vacant entry (first "
-                          "sighting); an occupied entry is only ever set to None; the map is never overwritten with Some")
+    r = RuleResult("F15", "unique(): `seen twice` is absorbing -- a value that carries an index (Some(index), Once(index)) is "
+                          "stored only through a vacant entry (first sighting); an occupied entry is only ever set to the "
+                          "payload-free `repeated` value (None); the map is never overwritten with an index-carrying value")
+    def payload_free(t):
+        t_ = t
+        while isinstance(t_, tuple) and t_ and t_[0] in ("ref", "deref"):
+            t_ = t_[1]
+        return isinstance(t_, tuple) and t_ and t_[0] == "aggregate" and not t_[2]
+
     for fn in prog.find("algorithms::utils::unique"):
         r.instances += 1
         m = fn.mir
@@ -2028,15 +2101,15 @@ def rule_F15(prog):
                 continue
             p = c["path"]
             if p.startswith("std::collections::HashMap::") and p.rsplit("::", 1)[-1] == "insert":
-                v = term_str(m.expand(m.resolve_operand(t["args"][2]))) if len(t["args"]) > 2 else "?"
-                if "None" not in v:
-                    problems.append("HashMap::insert(.., %s) overwrites an entry (line %d)" % (v, t["line"]))
+                v = m.expand(m.resolve_operand(t["args"][2])) if len(t["args"]) > 2 else None
+                if not payload_free(v):
+                    problems.append("HashMap::insert(.., %s) overwrites an entry (line %d)" % (term_str(v), t["line"]))
             if p.startswith("std::collections::hash_map::VacantEntry") and p.endswith("::insert"):
                 vac += 1
             if p.startswith("std::collections::hash_map::OccupiedEntry") and p.endswith("::insert"):
-                v = term_str(m.expand(m.resolve_operand(t["args"][1])))
-                if "None" not in v:
-                    problems.append("OccupiedEntry::insert(%s) (line %d)" % (v, t["line"]))
+                v = m.expand(m.resolve_operand(t["args"][1]))
+                if not payload_free(v):
+                    problems.append("OccupiedEntry::insert(%s) (line %d)" % (term_str(v), t["line"]))
                 else:
                     occ_none += 1
             if p.startswith("std::collections::hash_map::Entry") and p.rsplit("::", 1)[-1] in ("or_insert", "or_insert_with"):
@@ -2047,16 +2120,16 @@ def rule_F15(prog):
             for b in mm.blocks:
                 for s_ in b["stmts"]:
                     if s_["k"] == "assign" and "deref" in s_["p"]["proj"]:
-                        v = term_str(mm.expand(mm.resolve_rvalue(s_["rv"])))
-                        if "None" in v:
+                        v = mm.expand(mm.resolve_rvalue(s_["rv"]))
+                        if payload_free(v):
                             occ_none += 1
-                        elif "Some" in v:
-                            problems.append("an existing entry is set to %s (line %d)" % (v, s_["line"]))
+                        elif isinstance(v, tuple) and v and v[0] == "aggregate":
+                            problems.append("an existing entry is set to %s (line %d)" % (term_str(v), s_["line"]))
         if vac < 1:
             problems.append("no first-sighting store through a vacant entry")
         if occ_none < 1:
-            problems.append("no store of None for a repeated item")
-        r.ob(not problems, "unique(): vacant stores %d, None stores %d, problems %s" % (vac, occ_none, problems))
+            problems.append("no store of the payload-free `repeated` value for a repeated item")
+        r.ob(not problems, "unique(): vacant stores %d, repeated-marker stores %d, problems %s" % (vac, occ_none, problems))
         if problems:
             r.find(fn.path, "absorbing-none", "unique(): " + "; ".join(problems), file=fn.file, line=fn.line)
     return r
@@ -2171,7 +2244,22 @@ def rule_F19(prog):
         else:
             def gets(node):
                 out = []
-                for g in find_nodes(node, lambda n: n["k"] == "mcall" and n["name"] == "get" and n["args"]):
+                for g in find_nodes(node, lambda n: (n["k"] == "mcall" and n["name"] == "get" and n["args"]) or n["k"] == "call"):
+                    if g["k"] == "call":
+                        # a private cell-lookup helper: `cell(&table, i + 1, j)` with body `table.get(&(i, j))..`
+                        h, args = _call_target(prog, g)
+                        if h is None or not h.hir or not h.hir.get("body") or h.public:
+                            continue
+                        inner = [x for x in find_nodes(h.hir["body"], lambda n: n["k"] == "mcall" and n["name"] == "get" and n["args"])]
+                        if len(inner) != 1:
+                            continue
+                        k = unwrap(inner[0]["args"][0])
+                        if not (isinstance(k, dict) and k.get("k") == "tup" and len(k["es"]) == 2):
+                            continue
+                        amap = {pp["pat"].get("name"): origin(a_) for pp, a_ in zip(h.hir["params"], args)}
+                        key = tuple(amap.get(origin(x), origin(x)) for x in k["es"])
+                        out.append((g, key))
+                        continue
                     k = unwrap(g["args"][0])
                     if isinstance(k, dict) and k.get("k") == "tup" and len(k["es"]) == 2:
                         out.append((g, tuple(origin(x) for x in k["es"])))
@@ -2196,7 +2284,7 @@ def rule_F19(prog):
 
                     def reach(node, depth=0, acc=None):
                         acc = set() if acc is None else acc
-                        for g in find_nodes(node, lambda n: n["k"] == "mcall" and n["name"] == "get"):
+                        for g in find_nodes(node, lambda n: (n["k"] == "mcall" and n["name"] == "get") or n["k"] == "call"):
                             acc.add(g["id"])
                         if depth < 4:
                             for pth in find_nodes(node, lambda n: n["k"] == "path" and n.get("res", {}).get("k") == "local" and
